@@ -10,6 +10,6 @@ CONSTANTS
   B = 2
   Bug = "nodrain"
 SYMMETRY Sym2
-INVARIANTS NoDanglingEvent EventGoesToItsWaiter NoLostReadiness NoAddFailure RegistrationHasWaiter
+INVARIANTS NoDanglingEvent
 PROPERTY TimeoutIsolated
 CHECK_DEADLOCK FALSE
